@@ -7,7 +7,7 @@ import z3
 DISCHARGED, REFUTED, UNKNOWN, COVERED, VACUOUS, FAILED = "discharged", "refuted", "unknown", "covered", "vacuous", "failed"
 
 
-def _mk(obl, axioms, timeout_ms, ematching_only, variant=0):
+def _mk(obl, axioms, timeout_ms, ematching_only, variant=0, rlimit=None):
     """variant 0: the obligation as generated.  variant k > 0: the same formulas translated into a FRESH z3 context (term numbering
     and therefore instantiation order change) with another random seed - used to retry queries that ran out of time, because
     E-matching search is sensitive to such incidental details (an unstable query must not decide the verdict either way)."""
@@ -20,6 +20,8 @@ def _mk(obl, axioms, timeout_ms, ematching_only, variant=0):
         tr = lambda f: f.translate(ctx)
         s.set("smt.random_seed", 7919 * variant)
     s.set("timeout", timeout_ms)
+    if rlimit is not None:
+        s.set("rlimit", rlimit)
     if ematching_only:
         s.set("smt.mbqi", False)      # Boogie/Dafny style: pure E-matching; cannot answer sat
     for a in axioms:
@@ -76,38 +78,49 @@ def _hard_check(s, hard_timeout_s, want_model):
 
 
 def _is_budget(reason):
-    return any(w in reason for w in ("timeout", "canceled", "resource", "memory", "interrupted"))
+    return any(w in reason for w in ("timeout", "canceled", "resource", "memory", "interrupted", "rlimit", "max. resource"))
 
 
 def check(obl, axioms=(), timeout_ms=10000, want_smt2=False):
-    """Two passes: (1) E-matching only (fast proofs, never `sat`); (2) if not unsat, the default
-    configuration with model-based quantifier instantiation, which can also answer `sat`."""
+    """Budgets are z3 RESOURCE limits (rlimit: a deterministic count of solver steps), not seconds, so that verdicts do not depend on
+    how busy the machine is; wall-clock limits are only a generous backstop (z3 does not always honour its own timeout, hence the
+    hard kill).  R = timeout_ms * 3000 steps (about timeout_ms of solver time on this machine when idle).
+      A  E-matching only (Boogie/Dafny style; never answers sat), budget R/4  - almost every proof is found here in well under a second
+      B  model-based quantifier instantiation (can also answer sat),  budget R
+      C  E-matching only, budget R  (only if A stopped at its budget)
+      D  E-matching only in two fresh contexts with other seeds, budget R/2 each (only a proof is accepted from a retry)"""
     t0 = time.time()
     retried = 0
-    hard = timeout_ms / 1000.0 + 5
+    R = int(timeout_ms) * 3000
+    wall_ms = int(timeout_ms) * 6
+    hard = wall_ms / 1000.0 + 5
     if obl.expect_sat:
         s = _mk(obl, axioms, min(timeout_ms, 3000), False)
         r, reason, model = _hard_check(s, 8, False)
     else:
-        s = _mk(obl, axioms, timeout_ms, True)
+        s = _mk(obl, axioms, wall_ms, True, rlimit=R // 4)
         r, reason, model = _hard_check(s, hard, True)
         if r != "unsat":
             r1, reason1, model1, s1 = r, reason, model, s
-            s = _mk(obl, axioms, timeout_ms, False)
+            s = _mk(obl, axioms, wall_ms, False, rlimit=R)
             r, reason, model = _hard_check(s, hard, True)
             if r == "unknown" and _is_budget(reason) and not _is_budget(reason1):
-                # E-matching saturated without a proof (pass 1) and model-based instantiation ran out of
-                # time (pass 2): report the saturation verdict of pass 1
+                # E-matching saturated without a proof (pass A) and model-based instantiation ran out of budget (pass B): report the
+                # saturation verdict of pass A
                 r, reason, model, s = r1, reason1, model1, s1
             elif r == "unknown" and _is_budget(reason) and _is_budget(reason1):
-                # both passes ran out of time: retry the E-matching pass in fresh contexts (only a proof is accepted from a retry)
-                for variant in (1, 2):
-                    s2 = _mk(obl, axioms, timeout_ms, True, variant=variant)
-                    r2, reason2, _ = _hard_check(s2, hard, False)
-                    if r2 == "unsat":
-                        r, reason, model = r2, reason2, None
-                        retried = variant
-                        break
+                s3 = _mk(obl, axioms, wall_ms, True, rlimit=R)
+                r3, reason3, model3 = _hard_check(s3, hard, True)
+                if r3 == "unsat" or (r3 == "unknown" and not _is_budget(reason3)):
+                    r, reason, model, s = r3, reason3, model3, s3
+                else:
+                    for variant in (1, 2):
+                        s2 = _mk(obl, axioms, wall_ms, True, variant=variant, rlimit=R // 2)
+                        r2, reason2, _ = _hard_check(s2, hard, False)
+                        if r2 == "unsat":
+                            r, reason, model = r2, reason2, None
+                            retried = variant
+                            break
     dt = time.time() - t0
     out = {"name": obl.name, "kind": obl.kind, "line": obl.line, "seconds": round(dt, 3), "solver": "z3-5.1.0(api)"}
     if retried:
